@@ -69,6 +69,10 @@ pub struct Base {
     pub donors: Vec<Vec<u8>>,
     pub donor_pks: Vec<Vec<u8>>,
     pub fields: Vec<Field>,
+    /// master seed and counter of the base key (None for the RFC vectors): lets the model act as the
+    /// key owner and produce fresh, valid upper-level signatures over altered child public keys
+    pub seed: Option<Vec<u8>>,
+    pub counter: u64,
 }
 
 fn pack_generic(name: &str) -> String {
@@ -240,7 +244,7 @@ pub fn make_base(ctx: &Ctx, hid: Hid, params: &[Param], counter: u64, msg: Vec<u
     }
     let fields = model.sig_fields(&sig)?;
     let label = format!("{}{:?}@{}:msg{}", hid.name(), params.iter().map(|p| (model.lms_h(p.lms).unwrap(), crate::refmodel::w_of(p.ots).unwrap())).collect::<Vec<_>>(), counter, msg.len());
-    Ok(Base { hid, model, label, params: params.to_vec(), msg, sig, pk, donors, donor_pks, fields })
+    Ok(Base { hid, model, label, params: params.to_vec(), msg, sig, pk, donors, donor_pks, fields, seed: Some(seed), counter })
 }
 
 pub fn header_values(h: Option<u32>) -> Vec<u32> {
@@ -497,6 +501,56 @@ pub fn chain_games(b: &Base) -> Vec<Op> {
         sw.extend_from_slice(&sig[a0..a1]);
         sw.extend_from_slice(&sig[a2..]);
         ops.push(mk(b.msg.clone(), sw, b.pk.clone(), "chain-swap-first-two"));
+    }
+    // owner-signed chains: the key owner (the model, which knows the seed) signs an ALTERED child
+    // public key with the parent's real one-time key; everything below stays the honest chain.  The
+    // parent signature is valid over exactly the altered bytes, so only the checks that bind a level to
+    // the embedded key (type codes, identifier, root) can reject.
+    if let Some(seed) = &b.seed {
+        let m = &b.model;
+        let blob = m.make_blob(b.counter, &b.params, seed);
+        if let Ok(info) = m.parse_blob(&blob) {
+            if let Ok(path) = m.path_of(&info) {
+                for k in 0..l.saturating_sub(1) {
+                    let (po, pl) = ph.pubs[k];
+                    let honest_child = sig[po..po + pl].to_vec();
+                    let (ref ps, ref pid, pq) = path[k];
+                    let (ref cs, ref cid, _) = path[k + 1];
+                    let c = m.randomizer(cs, cid, pq);
+                    let mut variants: Vec<(String, Vec<u8>)> = vec![];
+                    for code in [1u32, 2, 3, 4] {
+                        if code != b.params[k + 1].ots {
+                            let mut x = honest_child.clone();
+                            x[4..8].copy_from_slice(&u32be(code));
+                            variants.push((format!("owner-signed-child-otstype-altered:level{}", if k + 2 == l { "last" } else { "inner" }), x));
+                        }
+                    }
+                    for code in [1u32, 5, 6, 7] {
+                        if code != b.params[k + 1].lms {
+                            let mut x = honest_child.clone();
+                            x[0..4].copy_from_slice(&u32be(code));
+                            variants.push((format!("owner-signed-child-lmstype-altered:level{}", if k + 2 == l { "last" } else { "inner" }), x));
+                        }
+                    }
+                    let mut x = honest_child.clone();
+                    x[8] ^= 0x40;
+                    variants.push(("owner-signed-child-I-altered".into(), x));
+                    let mut x = honest_child.clone();
+                    let last = x.len() - 1;
+                    x[last] ^= 0x01;
+                    variants.push(("owner-signed-child-root-altered".into(), x));
+                    variants.push(("owner-re-signed-honest-child(valid)".into(), honest_child.clone()));
+                    for (class, child) in variants {
+                        let new_sig_k = m.lms_sign(b.params[k], pid, ps, pq, &c, &child);
+                        let mut out = sig[..ph.sigs[k].off].to_vec();
+                        out.extend_from_slice(&new_sig_k);
+                        out.extend_from_slice(&child);
+                        out.extend_from_slice(&sig[po + pl..]);
+                        ops.push(mk(b.msg.clone(), out, b.pk.clone(), &class));
+                    }
+                }
+            }
+        }
     }
     // deeper donor: its signature under our pk, our signature under its pk
     if b.donors.len() > 3 {
